@@ -86,7 +86,8 @@ def b_energy(cl, mod, H, which):
                    '%s = (E1 r1 + E2 r2)/(r1+r2) over members (%s,%s) read off the macro name, when a rate exists' % (macro, a, b), functions=fns)
             cl.add('C10/%s/plain' % d, ev, And(pre, Not(num > 0), E(a) + E(b) > 0), okfail((E(a) + E(b)) / cnt),
                    '%s = plain mean of the members that have an energy when no rate exists' % macro, functions=fns)
-            cl.add('C10/%s/fail' % d, ev, And(pre, Not(E(a) + E(b) > 0)), fail, '%s: error when no member has an energy' % macro, functions=fns)
+            # no data assumption here: whatever the rates are (105 <= Z <= 109 have L3-M rates but no energies), no energy => error, never a silent 0.0
+            cl.add('C10/%s/fail' % d, ev, And(zin, line == H[macro], nonneg([a, b]), Not(E(a) + E(b) > 0)), fail, '%s: error when no member has an energy (whatever the rates)' % macro, functions=fns)
             cl.add('C10/%s/between' % d, ev, And(pre, E(a) + E(b) > 0),
                    And(Or(And(E(a) > 0, r.rv >= E(a)), And(E(b) > 0, r.rv >= E(b))), Or(r.rv <= E(a), r.rv <= E(b))),
                    '%s lies between its smallest and largest member energy' % macro, functions=fns)
